@@ -218,6 +218,8 @@ def c08(run):
     P = run.prog('rel')
     r_cnt.run(run, P)
     r_cnt.run_dequeue(run, P)
+    from rules import r_ownnode
+    r_ownnode.run_queue_key(run, P)       # the node an ACK/RST retires is the one of that session and message id
     run.min_instances('R-CNT-CON', 8)
     run.assumptions = ASSUME_COMMON + ["the in-flight bound under all ACK/RST orders and losses and the FIFO order of held messages are NOT decided"]
     return run.finish(
@@ -233,6 +235,7 @@ def c06(run):
     P = run.prog('rel')
     r_ownnode.run(run, P)
     r_ownnode.run_retrans(run, P)
+    r_ownnode.run_waitack(run, P)
     r_ownnode.run_queue_key(run, P)
     run.min_instances('R-OWN-NODE', 8)
     run.min_instances('R-RETRANS', 2)
@@ -258,6 +261,8 @@ def c10(run):
     r_reply.run(run, P)
     from rules import r_suppress
     r_suppress.run(run, P)
+    from rules import r_ownnode
+    r_ownnode.run_waitack(run, P)        # a queued Non-confirmable reply is flagged for exactly one (delayed) transmission
     run.min_instances('R-OWN-PDU', 5)
     run.min_instances('R-REPLY-ONCE', 5)
     run.assumptions = ASSUME_COMMON + ["the reply code table over the product of request features is NOT decided (a rule pinning the resp = 4.xx assignments would be a frozen "
